@@ -37,6 +37,98 @@ def c13_groups(tier, tag='C13'):
     return gs
 
 
+LF = 'lwe-functions.cpp'
+TF = 'toruspolynomial-functions.cpp'
+TL = 'tlwe-functions.cpp'
+LW = 'lwe.cpp'
+# multiplier constants for the clauses no back end decides for symbolic p (DESIGN section 1b)
+P_SPARSE = ['0', '1', '(-1)', '2', '3', '(-8)', '65536', '(-2147483647-1)']
+P_VAR = ['0', '1', '(-1)', '3', '(-181)', '32767']
+
+
+def lwe_groups(tag):
+    gs = []
+    for fn in ['lweClear', 'lweCopy', 'lweNegate', 'lweNoiselessTrivial', 'lweAddTo', 'lweSubTo']:
+        gs.append(Group('%s.%s' % (tag, fn), 'c14_lwe.c', 'h_' + fn, extract=[(LF, fn)], enforce=fn, loops=True, replay=('lwe', fn)))
+    # multiply variants: one contract, discharged in slices (coordinate clause / variance clause)
+    gs.append(Group(tag + '.lweAddMulTo.coord', 'c14_lwe.c', 'h_lweAddMulTo', extract=[(LF, 'lweAddMulTo')], enforce='lweAddMulTo',
+                    loops=True, backend='cvc5', defines={'KNOB_NOVAR': None}, replay=('lwe', 'lweAddMulTo')))
+    for P in P_SPARSE:
+        gs.append(Group('%s.lweSubMulTo.coord.p=%s' % (tag, P), 'c14_lwe.c', 'h_lweSubMulTo', extract=[(LF, 'lweSubMulTo')], enforce='lweSubMulTo',
+                        loops=True, defines={'KNOB_NOVAR': None, 'VERIF_PCONST': P}, replay=('lwe', 'lweSubMulTo'), instance={'p': P}))
+    for fn, d in (('lweAddMulTo', {}), ('lweSubMulTo', {'B_SUB': None})):
+        for P in P_VAR:
+            dd = dict(d)
+            dd['VERIF_PCONST'] = P
+            gs.append(Group('%s.%s.var.bounded.p=%s' % (tag, fn, P), 'c14_lwe.c', 'h_b_lweMulTo_var', extract=[(LF, fn)], unwind=4,
+                            defines=dd, bounded=True, replay=('lwe', fn), instance={'p': P, 'n': '1..3'}))
+    return gs
+
+
+def poly_cw_groups(tag):
+    gs = []
+    for fn in ['torusPolynomialClear', 'torusPolynomialCopy', 'torusPolynomialAdd', 'torusPolynomialAddTo', 'torusPolynomialSub',
+               'torusPolynomialSubTo', 'intPolynomialClear', 'intPolynomialCopy', 'intPolynomialAddTo']:
+        gs.append(Group('%s.%s' % (tag, fn), 'c11_poly.c', 'h_' + fn, extract=[(TF, fn)], enforce=fn, loops=True, replay=('poly', fn)))
+    for fn in ['torusPolynomialAddMulZ', 'torusPolynomialAddMulZTo']:
+        gs.append(Group('%s.%s' % (tag, fn), 'c11_poly.c', 'h_' + fn, extract=[(TF, fn)], enforce=fn, loops=True, backend='cvc5', replay=('poly', fn)))
+    for fn in ['torusPolynomialSubMulZ', 'torusPolynomialSubMulZTo']:
+        for P in P_SPARSE:
+            gs.append(Group('%s.%s.p=%s' % (tag, fn, P), 'c11_poly.c', 'h_' + fn, extract=[(TF, fn)], enforce=fn, loops=True,
+                            defines={'VERIF_PCONST': P}, replay=('poly', fn), instance={'p': P}))
+    return gs
+
+
+def poly_mono_groups(tag):
+    gs = []
+    for fn in ['torusPolynomialMulByXai', 'torusPolynomialMulByXaiMinusOne', 'intPolynomialMulByXaiMinusOne']:
+        gs.append(Group('%s.%s' % (tag, fn), 'c11_poly.c', 'h_' + fn, extract=[(TF, fn)], enforce=fn, loops=True, timeout=1200, replay=('poly', fn)))
+    return gs
+
+
+TLWE_CALLS = {
+    'tLweClear': ['torusPolynomialClear'], 'tLweNoiselessTrivial': ['torusPolynomialClear', 'torusPolynomialCopy'],
+    'tLweNoiselessTrivialT': ['torusPolynomialClear'], 'tLweAddTo': ['torusPolynomialAddTo'], 'tLweSubTo': ['torusPolynomialSubTo'],
+    'tLweMulByXaiMinusOne': ['torusPolynomialMulByXaiMinusOne'], 'tLweAddTTo': [],
+}
+
+
+def tlwe_groups(tag, tier):
+    gs = []
+    Ks = [1, 2] if tier == 'quick' else [1, 2, 3]
+    for K in Ks:
+        for fn, rep in TLWE_CALLS.items():
+            for gi in range(K + 1):
+                gs.append(Group('%s.%s.k=%d.gi=%d' % (tag, fn, K, gi), 'c14_tlwe.c', 'h_' + fn, extract=[(TL, fn)], enforce=fn, replace=rep,
+                                unwind=K + 3, defines={'VERIF_K': K, 'VERIF_GI': gi}, instance={'k': K, 'g_i': gi}, replay=('tlwe', fn)))
+        for gi in range(K + 1):
+            gs.append(Group('%s.tLweAddMulTo.k=%d.gi=%d' % (tag, K, gi), 'c14_tlwe.c', 'h_tLweAddMulTo', extract=[(TL, 'tLweAddMulTo')],
+                            enforce='tLweAddMulTo', replace=['torusPolynomialAddMulZTo'], unwind=K + 3, backend='cvc5',
+                            defines={'VERIF_K': K, 'VERIF_GI': gi}, instance={'k': K, 'g_i': gi}, replay=('tlwe', 'tLweAddMulTo')))
+            for P in (P_SPARSE if tier == 'thorough' else ['3', '(-1)']):
+                gs.append(Group('%s.tLweSubMulTo.k=%d.gi=%d.p=%s' % (tag, K, gi, P), 'c14_tlwe.c', 'h_tLweSubMulTo', extract=[(TL, 'tLweSubMulTo')],
+                                enforce='tLweSubMulTo', replace=['torusPolynomialSubMulZTo'], unwind=K + 3,
+                                defines={'VERIF_K': K, 'VERIF_GI': gi, 'VERIF_PCONST': P}, instance={'k': K, 'g_i': gi, 'p': P}, replay=('tlwe', 'tLweSubMulTo')))
+        gs.append(Group('%s.tLweCopy.k=%d' % (tag, K), 'c14_tlwe.c', 'h_tLweCopy', extract=[(TL, 'tLweCopy')], enforce='tLweCopy', loops=True,
+                        defines={'VERIF_K': K}, instance={'k': K}, replay=('tlwe', 'tLweCopy')))
+        gs.append(Group('%s.tLweAddRTTo.k=%d' % (tag, K), 'c14_tlwe.c', 'h_tLweAddRTTo', extract=[(TL, 'tLweAddRTTo')], enforce='tLweAddRTTo', loops=True,
+                        backend='cvc5', defines={'VERIF_K': K}, instance={'k': K}, replay=('tlwe', 'tLweAddRTTo')))
+        for fn in ['tLweExtractLweSampleIndex', 'tLweExtractKey']:
+            gs.append(Group('%s.%s.k=%d' % (tag, fn, K), 'c14_tlwe.c', 'h_' + fn, extract=[(LW, fn)], enforce=fn, loops=True, timeout=1200,
+                            defines={'VERIF_K': K}, instance={'k': K}, replay=('extract', fn)))
+        gs.append(Group('%s.tLweExtractLweSample.k=%d' % (tag, K), 'c14_tlwe.c', 'h_tLweExtractLweSample', extract=[(LW, 'tLweExtractLweSample')],
+                        enforce='tLweExtractLweSample', replace=['tLweExtractLweSampleIndex'],
+                        defines={'VERIF_K': K, 'EXTRACT_CALLEE_CONTRACT': None}, instance={'k': K}, replay=('extract', 'tLweExtractLweSample')))
+    return gs
+
+
+def c14_groups(tier):
+    return lwe_groups('C14') + poly_cw_groups('C14') + poly_mono_groups('C14')[1:2] + tlwe_groups('C14', tier) + [
+        Group('C14.lemma.linearity', 'lemmas.c', 'h_lemma_linearity', backend='z3'),
+        Group('C14.lemma.extract_term', 'lemmas.c', 'h_lemma_extract_term', backend='z3'),
+    ]
+
+
 PROPS = {
     'C13': {
         'groups': c13_groups,
@@ -44,6 +136,20 @@ PROPS = {
         'explanation': 'Each group is a complete proof over all 2^32 phases / all mu in [0,M) for one constant message-space size M '
                        '(the 64-bit divider with a symbolic divisor does not terminate in any installed solver, so M is enumerated).',
         'assumptions': STD_ASSUME + ['message-space sizes outside the enumerated list (quick: the 13 values of the property; thorough: [2,256], all 2^k, 300 seeded values in [2,2^15]) are not covered'],
+        'trusted': [],
+    },
+    'C14': {
+        'groups': c14_groups,
+        'level': 'proof',
+        'explanation': 'Coordinate-wise contracts (ghost index = every coordinate) on the real bodies of the LWE / polynomial / TLWE linear '
+                       'operations and of sample/key extraction, for every n, N >= 1 (symbolic, loop contracts) and k in {1,2}(,3); '
+                       'step-linearity and extraction-term lemmas loop-free.',
+        'assumptions': STD_ASSUME + [
+            'phase-level conclusion: lifting "every coordinate and b are affine" + "the step acc += a*s is linear" to the inner product sum_i a_i*s_i is induction on n, not machine-checked (DESIGN 2.3)',
+            'subtract-and-multiply variants (lweSubMulTo, torusPolynomialSubMulZ(To), tLweSubMulTo): coordinate clause proved for the multiplier constants p in {0,1,-1,2,3,-8,65536,INT32_MIN}, not for symbolic p (32-bit multiplier congruence under an index equality is not decided by minisat/cadical/kissat/z3/cvc5 within 5 min; the add variants are decided by cvc5 for all p)',
+            'variance annotation of lweAddMulTo/lweSubMulTo (IEEE product): bounded stand-in only (n <= 3, p in {0,1,-1,3,-181,32767}), labelled bounded; tLweAddMulTo/tLweSubMulTo variance clause not claimed',
+            'AVX2 inline-assembly subtraction intVecSubTo_avx (optimised builds) is not seen: the proof covers the #else scalar loop of lweSubTo',
+        ],
         'trusted': [],
     },
 }
